@@ -117,10 +117,10 @@ func randIdx(r *hx.Rand, clean bool, allowBig bool) idx {
 	case 2:
 		return idx{Kind: 'm', D: []int{-1, 0, 1, 2}[r.Intn(4)]}
 	case 3:
-		if !clean {
-			if r.Intn(6) == 0 {
-				return idx{Kind: 'c', X: F64(math.NaN())}
-			}
+		if !clean && r.Intn(6) == 0 {
+			return idx{Kind: 'c', X: F64(math.NaN())}
+		}
+		if r.Intn(2) == 0 {
 			return idx{Kind: 'c', X: F64(r.PickF(dirtyIdx))}
 		}
 		fallthrough
@@ -176,7 +176,7 @@ func randOp(r *hx.Rand, clean, allowBig, beforePreamble bool) []op {
 		case k < 48:
 			return []op{{K: "S", I: randIdx(r, clean, allowBig), T: randText(r, true)}}
 		case k < 51:
-			if clean || beforePreamble {
+			if beforePreamble {
 				continue
 			}
 			return []op{{K: "L", I: randIdx(r, true, false), T: randText(r, true)}}
@@ -271,7 +271,7 @@ func exhaustive(maxLen int) []script {
 	return out
 }
 
-// hand-written scripts: the witnesses of the known findings and the classic interactions
+// hand-written scripts: the witnesses of the findings (present and repaired) and the classic interactions
 func fixedScripts() []script {
 	c := func(x float64) idx { return idx{Kind: 'c', X: F64(x)} }
 	pre := preamble(false)
